@@ -131,4 +131,26 @@ func init() {
 (assert (forall ((A (Array Int Ref)) (d Int) (k Int)) (! (=> (<= k 0) (= (cntsince A d k) 0)) :pattern ((cntsince A d k)))))
 (assert (forall ((A (Array Int Ref)) (d Int) (k Int)) (! (=> (> k 0) (= (cntsince A d k) (+ (cntsince A d (- k 1)) (ite (>= (fld_Snapshot_Date__Int (select A (- k 1))) d) 1 0)))) :pattern ((cntsince A d k)))))
 `})
+	// pos(x) = max(0, x), as an application so that it may occur inside quantifier patterns (ite may not)
+	addPrelude(&PreludeFn{Name: "pos", Args: []string{"int"}, Ret: "int", SMT: `
+(declare-fun pos (Int) Int)
+(assert (forall ((x Int)) (! (= (pos x) (ite (>= x 0) x 0)) :pattern ((pos x)))))
+`})
+	// wcount(s,lo,hi,v): number of positions j in [lo,hi) with s[j] == v
+	addPrelude(&PreludeFn{Name: "wcount", Args: []string{"stream", "int", "int", "real"}, Ret: "int", Deps: []string{"sel_Real"}, SMT: `
+(declare-fun wcount (Int Int Int Real) Int)
+(assert (forall ((s Int) (lo Int) (hi Int) (v Real)) (! (=> (<= hi lo) (= (wcount s lo hi v) 0)) :pattern ((wcount s lo hi v)))))
+(assert (forall ((s Int) (lo Int) (hi Int) (v Real)) (! (=> (> hi lo) (= (wcount s lo hi v) (+ (wcount s lo (- hi 1) v) (ite (= (sel_Real s (- hi 1)) v) 1 0)))) :pattern ((wcount s lo hi v)))))
+`})
+	// wmaxS / wminS(s,lo,hi): greatest / least of s[lo..hi-1] (hi > lo)
+	addPrelude(&PreludeFn{Name: "wmaxS", Args: []string{"stream", "int", "int"}, Ret: "real", Deps: []string{"sel_Real"}, SMT: `
+(declare-fun wmaxS (Int Int Int) Real)
+(assert (forall ((s Int) (lo Int) (hi Int)) (! (=> (<= hi (+ lo 1)) (= (wmaxS s lo hi) (sel_Real s lo))) :pattern ((wmaxS s lo hi)))))
+(assert (forall ((s Int) (lo Int) (hi Int)) (! (=> (> hi (+ lo 1)) (= (wmaxS s lo hi) (ite (>= (wmaxS s lo (- hi 1)) (sel_Real s (- hi 1))) (wmaxS s lo (- hi 1)) (sel_Real s (- hi 1))))) :pattern ((wmaxS s lo hi)))))
+`})
+	addPrelude(&PreludeFn{Name: "wminS", Args: []string{"stream", "int", "int"}, Ret: "real", Deps: []string{"sel_Real"}, SMT: `
+(declare-fun wminS (Int Int Int) Real)
+(assert (forall ((s Int) (lo Int) (hi Int)) (! (=> (<= hi (+ lo 1)) (= (wminS s lo hi) (sel_Real s lo))) :pattern ((wminS s lo hi)))))
+(assert (forall ((s Int) (lo Int) (hi Int)) (! (=> (> hi (+ lo 1)) (= (wminS s lo hi) (ite (<= (wminS s lo (- hi 1)) (sel_Real s (- hi 1))) (wminS s lo (- hi 1)) (sel_Real s (- hi 1))))) :pattern ((wminS s lo hi)))))
+`})
 }
